@@ -165,6 +165,31 @@ def run(ck):
                         conj.append(f'Qlist_close {coq_Q(tol)} (probas_zero_one {EPSQ} {coq_Qlist(z)}) {coq_Qlist(P[r].tolist())}')
                 cid = len(cases)
                 cases.append((cid, ' && '.join(f'({c})' for c in conj))); meta[cid] = desc
+    # ---- very large label multisets in ONE call (50,001 / 65,537 labels): round trip, validity, zero rows -> frequencies, row by row including the last ones
+    for K, N in ((3, 50_001), (2, 65_537), (5, 100_003)):
+        for mode in ('prevalence', 'zero_one'):
+            pr = rng.random(K) + 0.05; pr = pr / pr.sum()
+            lab = rng.choice(K, size=N, p=pr); lab[:K] = np.arange(K)
+            lt = torch.tensor(lab, dtype=torch.long)
+            conv = ClassificationConverter(mode=mode, n_classes=K, labels=lt)
+            enc = conv.labels_to_numerical(lt)
+            back = conv.numerical_to_labels(enc)
+            Pz = conv.numerical_to_probas(torch.zeros(N, enc.shape[1])).double().numpy() if mode == 'prevalence' else None
+            Pe = conv.numerical_to_probas(enc).double().numpy()
+            desc = dict(K=K, N=N, mode=mode, kind='large multiset'); ck.case(desc, nontrivial=True); ck.count('large label multiset in one call')
+            probs = []
+            if not torch.equal(back.long(), lt):
+                bad = int((back.long() != lt).nonzero()[0])
+                probs.append(f'decode(encode(labels)) != labels for {N} labels (first mismatch at position {bad}: label {int(lt[bad])} decodes to {int(back[bad])})')
+            if Pe.shape != (N, K) or not np.all(np.isfinite(Pe)) or np.any(Pe < 0) or np.any(np.abs(Pe.sum(1) - 1) > 1e-5):
+                probs.append(f'decoding {N} rows gives an invalid probability row')
+            if Pz is not None:
+                want = np.clip(np.bincount(lab, minlength=K) / N, EPS, 1 - EPS); want = want / want.sum()
+                dv = np.max(np.abs(Pz - want[None, :]), axis=1)
+                if dv.max() > 2e-5:
+                    probs.append(f'zero row {int(dv.argmax())} of {N} decodes to {Pz[int(dv.argmax())].tolist()}, the class frequencies (clamped) are {want.tolist()}')
+            for p_ in probs:
+                ck.violation(p_ + f' on {desc}', dict(desc, problem=p_), key=json.dumps(dict(site='converter', mode=mode, what='large-' + p_[:20])))
     res = ck.run_bool_cases('conv', HEADER, cases, shard=12)
     bad = [meta[k] for k, v in res.items() if v is not True]
     ck.obligation(f'correspondence: {len(cases)} real converters: actual _C/_invA/_prior pass converter_okb, encode == model, decode within tolerance of '
